@@ -176,7 +176,7 @@ fn find_fn<'a>(file: &'a syn::File, spec: &str) -> Vec<FoundFn<'a>> {
 /// Only helpers without type parameters, `return`, `?` or `.await` are inlined, and only through `self.helper(..)`, `Self::helper(..)` or
 /// `helper(..)`. The inlined text is put on the line of the call, so every line number of the file stays what it is in the repository.
 /// Returns the rewritten file (or None when nothing was inlined) and the byte ranges of the inlined helpers in the ORIGINAL file.
-fn inline_helpers(orig: &SourceFile, func: &str, closure: Option<usize>, lift: &Option<String>, under_contract: &dyn Fn(&str) -> bool, notes: &mut Vec<String>) -> Option<(SourceFile, Vec<(usize, usize)>)> {
+fn inline_helpers(orig: &SourceFile, extra: &[SourceFile], func: &str, closure: Option<usize>, lift: &Option<String>, under_contract: &dyn Fn(&str) -> bool, notes: &mut Vec<String>) -> Option<(SourceFile, Vec<(usize, usize)>)> {
     struct Helper { sig: syn::Signature, block: syn::Block, span: (usize, usize), impl_ty: Option<String>, nested: bool }
     fn collect(src: &SourceFile, items: &[syn::Item], out: &mut BTreeMap<String, Vec<Helper>>) {
         for it in items {
@@ -244,6 +244,13 @@ fn inline_helpers(orig: &SourceFile, func: &str, closure: Option<usize>, lift: &
         let src: &SourceFile = cur.as_ref().unwrap_or(orig);
         let mut helpers = BTreeMap::new();
         collect(src, &src.ast.items, &mut helpers);
+        // R19x: the small methods of the shared vocabulary types (QueueState) live in a file of their own: a method declared there that is
+        // not under contract is a helper too, unless a function of that name exists in this file
+        for ef in extra {
+            let mut eh = BTreeMap::new();
+            collect(ef, &ef.ast.items, &mut eh);
+            for (k, v) in eh { if !helpers.contains_key(&k) { helpers.insert(k, v); } }
+        }
         let found = find_fn(&src.ast, func);
         if found.len() != 1 { break; }
         // functions declared inside the body are helpers too (they shadow module-level functions of the same name)
@@ -1844,7 +1851,8 @@ fn main() {
                 let under_contract = |name: &str| -> bool {
                     contract_names.contains(name) || spec.rules.call.contains_key(name) || tmpl_text.contains(&format!("fn {}(", name)) || tmpl_text.contains(&format!("fn {}<", name))
                 };
-                let inl = inline_helpers(base, &spec.func, spec.closure, &spec.lift, &under_contract, &mut notes);
+                let extra_files: Vec<SourceFile> = ["src/scheduler/queue_state.rs"].iter().filter(|f| **f != spec.file.as_str() && std::path::Path::new(&format!("{}/{}", repo, f)).exists()).map(|f| SourceFile::load(&repo, f)).collect();
+                let inl = inline_helpers(base, &extra_files, &spec.func, spec.closure, &spec.lift, &under_contract, &mut notes);
                 let src: &SourceFile = match &inl { Some((f, _)) => f, None => base };
             let found = find_fn(&src.ast, &spec.func);
             if found.len() != 1 {
@@ -1852,11 +1860,14 @@ fn main() {
             }
             let f = &found[0];
             // R25: consistent renaming of locals -> the same renaming of the template text of this body
-            let now_bound = collect_bindings(f.block);
+            // (the bindings of the function as written in the repository: locals of helpers inlined by R19 are not the function's own)
+            let now_bound = { let fb = find_fn(&base.ast, &spec.func); if fb.len() == 1 { collect_bindings(fb[0].block) } else { collect_bindings(f.block) } };
             let bkey = format!("{}::{}", spec.file, spec.func);
             if !bindings_out.iter().any(|l: &String| l.starts_with(&format!("{}\t", bkey))) { bindings_out.push(format!("{}\t{}", bkey, now_bound.join(" "))); }
+            let mut r25_map: Vec<(String, String)> = vec![];
             let spec: BodySpec = match pinned_bindings.get(&bkey).and_then(|old| rename_map(old, &now_bound).and_then(|(map, amb)| rename_spec(&spec, &map, &amb, old, &now_bound).map(|s| (s, map)))) {
                 Some((renamed, map)) => {
+                    r25_map = map.clone();
                     notes.push(format!("R25 locals of {} renamed consistently ({}): the template text of this body is renamed with them", spec.func, map.iter().map(|(o, n)| format!("{}->{}", o, n)).collect::<Vec<_>>().join(", ")));
                     renamed
                 }
@@ -1997,7 +2008,9 @@ fn main() {
             out.push("}\n", &format!("tmpl:{}", spec.tmpl_line));
             let bl = src.line_of(rs);
             let el = src.line_of(re);
-            shapes.push(format!("{}{}\t{}", spec.func, if spec.closure.is_some() || spec.lift.is_some() { format!("#{:?}/{:?}", spec.closure, spec.lift) } else { String::new() }, rw.loop_heads.join(" || ")));
+            // (loop heads are compared with the pinned ones under the R25 renaming: a renamed loop variable is not a re-shaped loop)
+            let heads: Vec<String> = rw.loop_heads.iter().map(|h| { let mut t = h.clone(); for (o, n) in &r25_map { t = replace_word(&t, n, o); } t }).collect();
+            shapes.push(format!("{}{}\t{}", spec.func, if spec.closure.is_some() || spec.lift.is_some() { format!("#{:?}/{:?}", spec.closure, spec.lift) } else { String::new() }, heads.join(" || ")));
             bodies.push(format!("{}::{} ({}:{}-{}){}", spec.file, spec.func, spec.file, bl, el,
                 if spec.closure.is_some() || spec.lift.is_some() { format!(" [closure={:?} async={:?}]", spec.closure, spec.lift) } else { String::new() }));
             match &inl {
